@@ -193,7 +193,7 @@ Work ==
                             \E z \in (seen \cup work \cup {w}) : z[1] = y[1] /\ z[2] = y[2] /\ z[3] # y[3]}}
           IN /\ work' = (work \ {w}) \cup fresh
              /\ seen' = seen \cup {w}
-             /\ viol' = viol \cup s.viol \cup confl
+             /\ viol' = IF Cardinality(viol) >= 12 THEN viol ELSE viol \cup s.viol \cup confl
              /\ ph' = ph
 
 Next == Sweep \/ StartWork \/ Work
